@@ -174,6 +174,35 @@ def catalog():
 
 
 # ----------------------------------------------------------------------------------------------------------------
+# requests, formed the way agent actions form them
+# ----------------------------------------------------------------------------------------------------------------
+_ACTION_FALLBACKS = set()
+
+
+def form_request(kind, name, verb):
+    """The request list for one lifecycle action: produced by the registered action class (node-service-stop, ...,
+    node-application-install/remove); the raw documented path is used if no such action class exists."""
+    if verb in ("install", "uninstall"):
+        raw = ["network", "node", HOST, "software_manager", "application", verb, name]
+        act = "node-application-" + ("install" if verb == "install" else "remove")
+    else:
+        raw = ["network", "node", HOST, kind, name, verb]
+        act = "node-%s-%s" % (kind, verb)
+    try:
+        from primaite.game.agent.actions.abstract import AbstractAction
+
+        cls = AbstractAction._registry[act]
+        key = "service_name" if kind == "service" and verb not in ("install", "uninstall") else "application_name"
+        req = list(cls.form_request(cls.ConfigSchema(**{"type": act, "node_name": HOST, key: name})))
+    except Exception:  # noqa - no such action class / other schema: the documented request path
+        _ACTION_FALLBACKS.add(act)
+        return raw
+    if req != raw:
+        raise engine.HarnessError("action %s forms %r, documented request is %r" % (act, req, raw))
+    return req
+
+
+# ----------------------------------------------------------------------------------------------------------------
 # payloads the software understands
 # ----------------------------------------------------------------------------------------------------------------
 def make_payload(name, target):
@@ -221,7 +250,8 @@ def make_payload(name, target):
         from primaite.simulator.network.protocols.masquerade import C2Packet
         from primaite.simulator.system.applications.red_applications.c2.abstract_c2 import C2Payload
 
-        return C2Packet(masquerade_protocol="tcp", masquerade_port=80, keep_alive_frequency=5,
+        # a keep-alive carrying a non-default frequency: resolving it re-configures the receiver (observable)
+        return C2Packet(masquerade_protocol="tcp", masquerade_port=80, keep_alive_frequency=7,
                         payload_type=C2Payload.KEEP_ALIVE, command=None, payload={})
     return {"type": "c13-probe"}
 
@@ -468,10 +498,9 @@ class LifecycleAdapter(engine.Adapter):
             if k == "tick":
                 s.tick()
             elif k == "req":
-                name, kind = self.suts[ev[1]], self.cat[ev[1]]["kind"]
-                status = s.node_req(HOST, [kind, name, ev[2]]).status
+                status = s.req(form_request(self.cat[ev[1]]["kind"], self.suts[ev[1]], ev[2])).status
             elif k in ("install", "uninstall"):
-                status = s.node_req(HOST, ["software_manager", "application", k, self.suts[ev[1]]]).status
+                status = s.req(form_request("application", self.suts[ev[1]], k)).status
             elif k == "api_install":
                 h.software_manager.install(self.cat[ev[1]]["cls"])
                 sw = self._sw(s, ev[1])
@@ -501,8 +530,7 @@ class LifecycleAdapter(engine.Adapter):
             out, v = self._judge_payload(s, ev, calls, ops_before, node_before)
             outcome.append(out)
             viols += v
-        elif any(c[1] or c[2] or c[3] for c in calls):
-            pass  # receive during a non-payload event (e.g. replies to traffic the software itself started): not judged
+        # (receive calls during other events, e.g. replies to traffic the software itself started, are not judged)
         # ---- state invariants
         viols += self._ports(s, self.label(ev))
         viols += self._registries(s, self.label(ev))
@@ -601,8 +629,9 @@ class LifecycleAdapter(engine.Adapter):
                 clause = "timed_transition_completes_after_configured_ticks"
                 ref.elapsed += 1
                 done_at = ref.duration + 1 if ref.op == "RESTARTING" else max(ref.duration, 1)
-                sig = "%s:%s:%s:tick=%d:duration=%d" % (kind, name, ref.op, ref.elapsed, ref.duration)
-                want = "RUNNING" if ref.elapsed >= done_at else ref.op
+                due = ref.elapsed >= done_at
+                sig = "%s:%s:%s:%s" % (kind, name, ref.op, "due-tick" if due else "before-due-tick")
+                want = "RUNNING" if due else ref.op
         elif k in ("shutdown", "startup"):
             clause = "power_event_moves_software_as_documented"
             if node_before != "OFF" and node_after == "OFF":
@@ -611,12 +640,14 @@ class LifecycleAdapter(engine.Adapter):
                 want = self._power_on(ref)
         ok = (op_after in want_set) if want_set is not None else (op_after == want)
         if not ok:
+            timing = ""
+            if clause.startswith("timed"):
+                timing = " (counted tick %d of a transition configured to take %d)" % (ref.elapsed, ref.duration)
             v.append(violation(clause, "%s:got=%s" % (sig, op_after),
-                               "%s %s: event %s with node %s->%s, reference state %s -> expected %s, observed %s -> %s" % (
+                               "%s %s: event %s with node %s->%s, reference state %s -> expected %s, observed %s -> %s%s" % (
                                    kind, name, list(ev), node_before, node_after, ref.op,
-                                   list(want_set) if want_set is not None else want, op_before, op_after)))
+                                   list(want_set) if want_set is not None else want, op_before, op_after, timing)))
         ref.op = op_after  # re-synchronise (the transition below a violation is not explored)
-        # the state reported by describe_state is the real one (reported state agrees)
         return v
 
     @staticmethod
@@ -915,6 +946,9 @@ def run(tier, is_known):
                     "level_sizes": r.level_sizes, "determinism_replays": r.determinism_checked,
                     "distinct_outcomes": len(r.outcomes), "violations": len(r.violations), "wall_s": round(wall, 1)})
     vac = payload_vacuity()
+    for kind, verbs in (("service", SVC_VERBS), ("application", APP_VERBS + ["install", "uninstall"])):
+        for verb in verbs:
+            form_request(kind, "x", verb)  # fills _ACTION_FALLBACKS in this process (the workers do the same)
     items = cat["items"]
     cov = {
         "states": states, "transitions": trans, "traces_validated_against_impl": trans,
@@ -929,6 +963,7 @@ def run(tier, is_known):
         "registry_classes_skipped": cat["skipped"], "modules_that_failed_to_import": cat["failed_imports"],
         "shared_port_pairs": _pairs(items),
         "payload_event_when_running": vac,
+        "requests_formed_by_action_classes": not _ACTION_FALLBACKS, "actions_without_class": sorted(_ACTION_FALLBACKS),
         "harnesses": per, "event_histogram": hist, "distinct_outcomes": outcomes,
     }
     capped = [x["adapter"] for x in per if x["cap"]]
